@@ -3,6 +3,7 @@ from .common import jobs_for
 LEVEL = 'proof'
 LEVEL_TEXT = 'frame condition of every public builder, mean, gradient, divergence, boundary term, location function, source term, volume / integral function (28 entry points x 9 grids): the write log of the traced call contains no buffer reachable from any argument or from the mesh, no attribute of a reachable object is re-bound, no returned array lives in a reachable buffer; solvePDE writes only its solution variable and leaves the term list and the term arrays alone, solveMatrixPDE / solveExplicitPDE write nothing they are given; two traces give identical results; AST scan for sources of nondeterminism'
 LEVEL_NOTE = 'bit-identical floats additionally need numpy/scipy kernels to be deterministic (A3); sparse results are assumed not to alias the triplet arrays they are built from (scipy copies, A2); native cross-check with snapshots and numpy.shares_memory on every run'
+NOT_MACHINE_CHECKED = ['bit-identical repeatability of FLOAT results needs numpy/scipy kernels to be deterministic (A3); symbolically two calls give the identical term / stencil families', 'scipy.sparse results are assumed not to alias the triplet arrays they are built from (A2)']
 MODULES = ['contracts.purity']
 TRUSTED = ['A1', 'A2', 'A3', 'A5', 'A6']
 
